@@ -142,6 +142,8 @@ def gamma_index(spec, n):
         return list(range(n - 1, -1, -1))
     if spec == "mixed":
         return [("k%d" % i) if i % 2 else i * 10 for i in range(n)]
+    if spec == "shift":            # a RangeIndex that overlaps 0..n-1 without starting at 0 (rows filtered away)
+        return list(range(1, n + 1))
     return list(spec)
 
 
